@@ -1,16 +1,200 @@
-import DmrVerif.Model.Lrrp
+import DmrVerif.Lemmas.LrrpApi
 import DmrVerif.Lemmas.LrrpRef
 
-/-! # C15 — LRRP/MBXML documents (work in progress: table pin only) -/
+/-!
+# C15 — LRRP/MBXML documents re-serialise to the bytes they were parsed from
+
+Property theorems only.  Model: `Model/Lrrp.lean` (`MBXML.from_bytes`, `read_document`, `write_part`,
+`as_bytes`, `get_token` / `get_attribute`) on top of the C14 codecs, tied to the code by the
+correspondence run of `harness/props/c15.py`; tables from `Gen/Lrrp.lean`, regenerated on every run and
+pinned to the frozen reference `Lemmas/LrrpRef.lean` by the first theorem.
+
+*Canonical documents* (`docOk`, `partOk`, `valueOk` in the model): tokens of the document's own table with
+implemented value forms, values in range, floats `± (i + f/128)` (one-septet fraction, no negative zero),
+every wire attribute present, constant table default (NCDT ids) / inline of length ≠ 1 / inherited, body
+length below 2^32.  *Canonical octets* are the serialiser's output on canonical documents; by the C14
+theorems (`writeU_canonical`, `writeU_unique`, `writeS_canonical`, `writeS_unique`, `fraction_one_septet`)
+these are exactly the shortest-varint, one-septet-fraction encodings.  The theorems hold for any number of
+documents per buffer and any number of tokens per document.
+-/
 
 namespace Dmr.C15
-open Dmr Dmr.Lrrp
+open Dmr Dmr.Mbxml Dmr.Lrrp
 
-/-- the tables extracted on this run are the reference LRRP tables the theorems and the generator are about -/
+/-! ## the tables -/
+
+/-- the tables extracted on this run are the reference LRRP tables (what the tokens *are*): a changed
+token type, length, attribute list, document id or constant breaks this theorem -/
 theorem tables_are_reference :
     Gen.Lrrp.docIds = Ref.Lrrp.docIds ∧ Gen.Lrrp.elements0 = Ref.Lrrp.elements0
     ∧ Gen.Lrrp.elements1 = Ref.Lrrp.elements1 ∧ Gen.Lrrp.elements2 = Ref.Lrrp.elements2
-    ∧ Gen.Lrrp.attributes0 = Ref.Lrrp.attributes0 ∧ Gen.Lrrp.constants0 = Ref.Lrrp.constants0 := by
+    ∧ Gen.Lrrp.attributes0 = Ref.Lrrp.attributes0 ∧ Gen.Lrrp.constants0 = Ref.Lrrp.constants0
+    ∧ Gen.Lrrp.knownTokensRequest = Ref.Lrrp.knownTokensRequest
+    ∧ Gen.Lrrp.knownTokensAnswer = Ref.Lrrp.knownTokensAnswer
+    ∧ Gen.Lrrp.knownAttributesRequest = Ref.Lrrp.knownAttributesRequest
+    ∧ Gen.Lrrp.knownAttributesAnswer = Ref.Lrrp.knownAttributesAnswer := by
   decide
+
+/-- the document ids that have a configuration are exactly the 18 LRRP ids 4 … 21 -/
+theorem lrrp_ids : (List.range 64).filter (fun i => (configOf i).toOption.isSome)
+    = [4, 5, 6, 7, 8, 9, 10, 11, 12, 13, 14, 15, 16, 17, 18, 19, 20, 21] := by decide
+
+/-- the model's `build_constants_table` gives the octets the code computed on this run -/
+theorem constants_built : buildConstants Gen.Lrrp.constants0 = Gen.Lrrp.constants0Built := by decide
+
+/-- every definition the lookup API can return is the definition the parser uses for that id in the
+request (`elements0`) resp. answer / report (`elements1`) documents; the common tokens are in every table -/
+theorem known_tokens_in_tables :
+    (knownTokens true).flatten.all (fun tc => lookupElem Gen.Lrrp.elements0 tc.id == some tc) = true
+    ∧ (knownTokens false).flatten.all (fun tc => lookupElem Gen.Lrrp.elements1 tc.id == some tc) = true
+    ∧ Gen.Lrrp.elements2.all (fun tc => lookupElem Gen.Lrrp.elements0 tc.id == some tc
+        && lookupElem Gen.Lrrp.elements1 tc.id == some tc) = true := by
+  decide
+
+/-! ## parse ∘ serialise -/
+
+/-- canonical documents, one or several per buffer: the serialiser accepts them and the parser returns
+them (NCDT documents with the default constant table filled in: `normDoc`) -/
+theorem parse_ser (ds : List Doc) (hne : ds ≠ []) (hok : docsOk none ds = true) :
+    ∃ x, asBytesAll ds = .ok x ∧ parse x = .ok (ds.map normDoc) := by
+  obtain ⟨x, hx, _, hp⟩ := parseDocs_ser ds none hne hok
+  exact ⟨x, hx, hp _ (Nat.le_refl _)⟩
+
+/-- canonical octets re-serialise to themselves: if `x` is the serialisation of canonical documents,
+then parsing `x` and serialising every parsed document gives `x` back (whole buffer) … -/
+theorem reserialise (x : Bytes) (ds : List Doc) (hne : ds ≠ []) (hok : docsOk none ds = true)
+    (hx : asBytesAll ds = .ok x) :
+    ∃ ps, parse x = .ok ps ∧ ps.length = ds.length ∧ asBytesAll ps = .ok x := by
+  obtain ⟨x', hx', hp⟩ := parse_ser ds hne hok
+  rw [hx] at hx'
+  have hxx : x' = x := by simpa using hx'.symm
+  subst hxx
+  exact ⟨ds.map normDoc, hp, by simp, by rw [asBytesAll_map_normDoc ds none hok]; exact hx⟩
+
+/-- … and document by document: every parsed document serialises to the octets of its own segment -/
+theorem reserialise_each (ds : List Doc) (hne : ds ≠ []) (hok : docsOk none ds = true) :
+    ∃ x, asBytesAll ds = .ok x ∧
+      (parse x).map (fun ps => ps.map asBytes) = .ok (ds.map asBytes) := by
+  obtain ⟨x, hx, hp⟩ := parse_ser ds hne hok
+  refine ⟨x, hx, ?_⟩
+  rw [hp]
+  simp only [Except.map, List.map_map]
+  congr 1
+  -- asBytes ∘ normDoc = asBytes on every canonical document of the chain
+  have : ∀ (l : List Doc) (prev : Option Doc), docsOk prev l = true →
+      l.map (asBytes ∘ normDoc) = l.map asBytes := by
+    intro l
+    induction l with
+    | nil => intro _ _; rfl
+    | cons d t ih =>
+      intro prev h
+      simp only [docsOk, Bool.and_eq_true] at h
+      simp only [List.map_cons, Function.comp, asBytes_normDoc h.1]
+      congr 1
+      exact ih _ h.2
+  exact this ds none hok
+
+/-- `normDoc` only fills in the default constant table: ids, flags and parts (token ids, values,
+attributes) are untouched -/
+theorem normDoc_obs (d : Doc) :
+    (normDoc d).id = d.id ∧ (normDoc d).parts = d.parts ∧ (normDoc d).cdtDefault = d.cdtDefault
+      ∧ (normDoc d).cdtInherited = d.cdtInherited := by
+  unfold normDoc
+  split
+  · split <;> simp
+  · simp
+
+/-! ## the token lookup API -/
+
+/-- a document assembled from `get_token` results, whose parts are canonical for the document's table,
+serialises to octets that parse back into one document with the same parts (token ids, values, attribute
+values); `getToken_sound` / `known_tokens_in_tables` say what `get_token` returns.  The hypothesis `docOk`
+excludes exactly the two recorded shortcomings below and ill-typed / out-of-range values. -/
+theorem token_api (docId : Nat) (isReq : Bool) (calls : List (Key × Val × List (Key × Option Nat)))
+    (ps : List Part) (_hb : getTokens isReq calls = .ok ps) (hok : docOk none (newDoc docId ps) = true) :
+    ∃ x d, asBytes (newDoc docId ps) = .ok x ∧ parse x = .ok [d] ∧ d.id = docId ∧ d.parts = ps := by
+  have h1 : docsOk none [newDoc docId ps] = true := by simp [docsOk, hok]
+  obtain ⟨x, hx, hp⟩ := parse_ser [newDoc docId ps] (by simp) h1
+  cases ha : asBytes (newDoc docId ps) with
+  | error e => simp [asBytesAll, ha] at hx
+  | ok b =>
+    have hxb : x = b := by simp [asBytesAll, ha] at hx; exact hx.symm
+    subst hxb
+    refine ⟨x, normDoc (newDoc docId ps), rfl, by simpa using hp, ?_, ?_⟩
+    · exact (normDoc_obs _).1
+    · exact (normDoc_obs _).2.1
+
+/-- what `get_token` returns: one of the known definitions matching the key, carrying the caller's value -/
+theorem get_token_sound (isReq : Bool) (k : Key) (v : Val) (attrs : List (Key × Option Nat)) (p : Part)
+    (h : getToken isReq k v attrs = .ok p) :
+    ∃ tc ∈ (knownTokens isReq).flatten, k.matchesId tc.id tc.name = true ∧ p.tokenId = tc.id
+      ∧ p.ty = tc.ty ∧ p.length = tc.length ∧ p.value = v :=
+  getToken_sound isReq k v attrs p h
+
+/-- recorded shortcoming 1 (KNOWN_FINDINGS api-length0-explicit-attribute), kernel-checked: token 0x37
+(fixed length 0) given an explicit result-code: the attribute is written, never read back -/
+theorem api_length0_explicit_attribute_fails :
+    ∃ p, getToken false (.id 0x37) (.bytes []) [(.id 0x22, some 5)] = .ok p
+      ∧ asBytes (newDoc 7 [p]) = .ok [7, 2, 0x37, 5] ∧ parse [7, 2, 0x37, 5] = .error .key
+      ∧ docOk none (newDoc 7 [p]) = false := by
+  refine ⟨⟨0x37, .OPAQUE_I, some 0, [.inst ⟨0x22, 5⟩], .bytes []⟩, ?_, ?_, ?_, ?_⟩ <;> decide
+
+/-- recorded shortcoming 2 (KNOWN_FINDINGS api-wire-attribute-omitted), kernel-checked: token 0x39 without
+its result-code: no attribute octet is written although the parser always reads one -/
+theorem api_wire_attribute_omitted_fails :
+    ∃ p, getToken false (.id 0x39) (.bytes [0x61, 0x62, 0x63]) [] = .ok p
+      ∧ asBytes (newDoc 7 [p]) = .ok [7, 5, 0x39, 3, 0x61, 0x62, 0x63]
+      ∧ parse [7, 5, 0x39, 3, 0x61, 0x62, 0x63] = .error .index
+      ∧ docOk none (newDoc 7 [p]) = false := by
+  refine ⟨⟨0x39, .OPAQUE_I, none, [.id 0x22], .bytes [0x61, 0x62, 0x63]⟩, ?_, ?_, ?_, ?_⟩ <;> decide
+
+/-! ## termination and consumption -/
+
+/-- parsing terminates on every octet string: the model's recursion budget (octets left) is never
+exhausted, so the result is a list of documents or one of the modelled Python exceptions -/
+theorem parse_total (x : Bytes) : parse x ≠ .error .fuel := by
+  intro h
+  exact parseDocs_nf (x.length + 1) x none (Nat.le_refl _) _ h rfl
+
+/-- the token loop of one document terminates likewise -/
+theorem read_document_total (docId : Nat) (body : Bytes) (prev : Option Doc) :
+    readDocument docId body prev ≠ .error .fuel := by
+  intro h
+  exact readDocument_nf' h rfl
+
+/-- a successful parse consumed exactly the announced lengths: the buffer is a sequence of
+`id, length, length octets`, every document was read from exactly its own octets, the last one ends
+with the buffer -/
+theorem consumed (x : Bytes) (ds : List Doc) (h : parse x = .ok ds) : Consumed x none ds :=
+  parseDocs_consumed _ _ _ _ h
+
+/-- a parse never returns an empty list of documents, and an empty buffer raises -/
+theorem parse_nonempty (x : Bytes) (ds : List Doc) (h : parse x = .ok ds) : ds ≠ [] ∧ x ≠ [] := by
+  have hc := consumed x ds h
+  constructor
+  · cases hc <;> simp
+  · intro hx
+    subst hx
+    simp [parse, parseDocs, readUL, readUGo] at h
+
+/-! ## the hypotheses are satisfiable by non-trivial documents -/
+
+/-- the standard example report with error (test_lrrp): request-id 2468ACE0 and result 0x39 with
+result-code 5, assembled through the lookup API -/
+example : ∃ ps, getTokens false [(.id 0x22, .bytes [0x24, 0x68, 0xAC, 0xE0], []),
+      (.id 0x39, .bytes [0x51, 0x53, 0x55], [(.id 0x22, some 5)])] = .ok ps
+    ∧ docOk none (newDoc 7 ps) = true
+    ∧ asBytes (newDoc 7 ps) = .ok [0x07, 0x0C, 0x22, 0x04, 0x24, 0x68, 0xAC, 0xE0, 0x39, 0x05, 0x03, 0x51, 0x53, 0x55] := by
+  refine ⟨[⟨0x22, .OPAQUE_I, none, [], .bytes [0x24, 0x68, 0xAC, 0xE0]⟩,
+    ⟨0x39, .OPAQUE_I, none, [.inst ⟨0x22, 5⟩], .bytes [0x51, 0x53, 0x55]⟩], ?_, ?_, ?_⟩ <;> decide
+
+/-- three documents in one buffer: inline constant table, inherited table, NCDT; request-id of 0 octets,
+interval 128 (a multiple of 128), altitude −10/128 (zero integer part, negative fraction) -/
+def exampleDocs : List Doc :=
+  [⟨4, [5, 0x41, 0x50, 0x43, 0x4F], false, false, [⟨0x22, .OPAQUE_I, none, [], .bytes []⟩, ⟨0x31, .UINTVAR, none, [], .nat 128⟩]⟩,
+   ⟨6, [5, 0x41, 0x50, 0x43, 0x4F], false, true, [⟨0x69, .POINT_3D, none, [], .point3 [1, 2, 3, 4] [5, 6, 7, 8] ⟨true, 10, 7⟩⟩]⟩,
+   ⟨17, [], true, false, [⟨0x38, .OPAQUE_I, some 0, [.id 0x23], .bytes []⟩]⟩]
+
+example : docsOk none exampleDocs = true := by decide
 
 end Dmr.C15
